@@ -360,6 +360,7 @@ impl Component for HubC {
         // Real parallelism (publisher thread vs. unsubscribing thread) on a private hub.
         if idx % 400 == 3 {
             ops.push(format!("par {} {}", rng.range(16, 96), if matches!(_tier, Tier::Quick) { 150 } else { 400 }));
+            ops.push(format!("subfull {}", rng.pick(&[1usize, 1, 2, 8, 128])));
             ops.push("len".into());
             return ops;
         }
@@ -597,6 +598,19 @@ impl Component for HubC {
                 }
                 format!("first:{first} last:{last}")
             }
+            ["subfull", cap] => {
+                // a control connection whose bounded push queue is completely full issues one more `subscribe`
+                // through the REAL dispatcher (the control socket's glue); a publish on that topic must still
+                // complete at once. Private hub, monitor only, constant reply.
+                let Ok(cap) = cap.parse::<usize>() else { return "bad-op".into() };
+                if cap == 0 || cap > 256 {
+                    return "bad-op".into();
+                }
+                if let Some(desc) = subscribe_on_full_queue(cap, mon) {
+                    mon.fail(P, "publish-blocked-by-subscribe", desc);
+                }
+                "ok".into()
+            }
             ["par", nsubs, rounds] => {
                 let (Ok(nsubs), Ok(rounds)) = (nsubs.parse::<usize>(), rounds.parse::<usize>()) else {
                     return "bad-op".into();
@@ -680,6 +694,60 @@ impl Component for HubC {
 /// thread unsubscribes the victim in the middle of a fan-out.  Once `unsubscribe` has returned and
 /// the victim's channel has been drained, nothing more may ever arrive on it.  Uses a private hub,
 /// so the case's hub (and the model's state) is untouched.
+/// `subfull`: see the op. Returns a description if a publish does not complete within 2 s.
+fn subscribe_on_full_queue(cap: usize, mon: &mut Mon) -> Option<String> {
+    use srtla_send::config::DynamicConfig;
+    use srtla_send::control::{SubscriptionContext, dispatch_async};
+    use srtla_send::stats::SharedStats;
+    let rt = tokio::runtime::Builder::new_current_thread().enable_time().build().expect("runtime");
+    let hub = SubscriptionHub::new();
+    let (tx, rx) = mpsc::channel::<String>(cap);
+    let stats = SharedStats::new();
+    let cfg = DynamicConfig::new();
+    let sub_line = r#"{"jsonrpc":"2.0","id":1,"method":"subscribe","params":{"topic":"stats"}}"#;
+    let res = rt.block_on(async {
+        // first subscription of this connection, then events nobody reads until the queue is full
+        let mut owned: Vec<String> = Vec::new();
+        {
+            let mut ctx = SubscriptionContext { hub: &hub, push_tx: tx.clone(), owned_ids: &mut owned };
+            let first = tokio::time::timeout(Duration::from_secs(5), dispatch_async(&cfg, Some(&stats), None, Some(&mut ctx), sub_line)).await;
+            if first.is_err() {
+                return Some("the first subscribe of a connection with an empty push queue did not return within 5 s".to_string());
+            }
+        }
+        for k in 0..cap + 2 {
+            if tokio::time::timeout(Duration::from_secs(2), hub.publish("stats", json!({ "k": k }))).await.is_err() {
+                return Some(format!("publish #{k} to a subscriber that does not read did not complete within 2 s (queue capacity {cap})"));
+            }
+        }
+        // the connection's task handles one more subscribe while its queue is full (it cannot drain the
+        // queue meanwhile: it is the task awaiting the subscribe)
+        let hub2 = hub.clone();
+        let (stats2, cfg2, tx2) = (stats.clone(), cfg.clone(), tx.clone());
+        let conn = tokio::spawn(async move {
+            let mut owned2: Vec<String> = Vec::new();
+            let mut ctx = SubscriptionContext { hub: &hub2, push_tx: tx2, owned_ids: &mut owned2 };
+            let _ = dispatch_async(&cfg2, Some(&stats2), None, Some(&mut ctx), sub_line).await;
+        });
+        for _ in 0..20 {
+            tokio::task::yield_now().await;
+        }
+        let blocked = tokio::time::timeout(Duration::from_secs(2), hub.publish("stats", json!({ "after": true }))).await.is_err();
+        conn.abort();
+        let _ = conn.await;
+        if blocked {
+            Some(format!(
+                "a control connection with a full push queue (capacity {cap}, client not reading) issued another `subscribe stats`; the next publish did not complete within 2 s: the data plane waits on a control client"
+            ))
+        } else {
+            None
+        }
+    });
+    drop(rx);
+    mon.count("subscribe-on-full-queue");
+    res
+}
+
 fn par_stress(nsubs: usize, rounds: usize, mon: &mut Mon) -> Option<String> {
     use std::sync::Arc;
     use std::sync::atomic::{AtomicBool, AtomicU64, Ordering};
